@@ -25,6 +25,22 @@ LeafSchemas ==
     num_range   |-> [type |-> "number", minimum |-> 1, maximum |-> 5],
     num_xrange  |-> [type |-> "number", minimum |-> 1, maximum |-> 5, exclusiveMinimum |-> TRUE, exclusiveMaximum |-> TRUE],
     num_mul     |-> [type |-> "number", multipleOf |-> 3],
+    \* asymmetric exclusivity, per numeric format (each format takes its own branch of the templates)
+    int_xlo     |-> [type |-> "integer", minimum |-> 2, maximum |-> 10, exclusiveMinimum |-> TRUE],
+    int_xhi     |-> [type |-> "integer", minimum |-> 2, maximum |-> 10, exclusiveMaximum |-> TRUE],
+    i32_xlo     |-> [type |-> "integer", format |-> "int32", minimum |-> 2, maximum |-> 10, exclusiveMinimum |-> TRUE],
+    i32_xhi     |-> [type |-> "integer", format |-> "int32", minimum |-> 2, maximum |-> 10, exclusiveMaximum |-> TRUE],
+    u32_xlo     |-> [type |-> "integer", format |-> "uint32", minimum |-> 2, maximum |-> 10, exclusiveMinimum |-> TRUE],
+    u32_xhi     |-> [type |-> "integer", format |-> "uint32", minimum |-> 2, maximum |-> 10, exclusiveMaximum |-> TRUE],
+    u64_xlo     |-> [type |-> "integer", format |-> "uint64", minimum |-> 2, maximum |-> 10, exclusiveMinimum |-> TRUE],
+    u64_xhi     |-> [type |-> "integer", format |-> "uint64", minimum |-> 2, maximum |-> 10, exclusiveMaximum |-> TRUE],
+    num_xlo     |-> [type |-> "number", minimum |-> 2, maximum |-> 10, exclusiveMinimum |-> TRUE],
+    num_xhi     |-> [type |-> "number", minimum |-> 2, maximum |-> 10, exclusiveMaximum |-> TRUE],
+    f32_xlo     |-> [type |-> "number", format |-> "float", minimum |-> 2, maximum |-> 10, exclusiveMinimum |-> TRUE],
+    f32_xhi     |-> [type |-> "number", format |-> "float", minimum |-> 2, maximum |-> 10, exclusiveMaximum |-> TRUE],
+    f32_mul     |-> [type |-> "number", format |-> "float", multipleOf |-> 3],
+    i32_mul     |-> [type |-> "integer", format |-> "int32", multipleOf |-> 4],
+    i32_enum    |-> [type |-> "integer", format |-> "int32", enum |-> <<2, 4>>],
     str_plain   |-> [type |-> "string"],
     str_minlen  |-> [type |-> "string", minLength |-> 2],
     str_maxlen  |-> [type |-> "string", maxLength |-> 2],
@@ -86,7 +102,7 @@ AllDefs == [n \in DefNames |-> DefSchema(n)]
 (***************************************************************************)
 (* Instances                                                               *)
 (***************************************************************************)
-NumVals == {-6, -4, -2, -1, 0, 1, 2, 3, 4, 5, 6, 8, 12}
+NumVals == {-6, -4, -2, -1, 0, 1, 2, 3, 4, 5, 6, 8, 9, 10, 11, 12}
 StrVals == {"", "a", "ab", "abc", "b", "2020-01-02"}
 Scalars == {Num(n) : n \in NumVals} \cup {Str(x) : x \in StrVals} \cup {Bool(TRUE), Bool(FALSE)}
 
